@@ -13,6 +13,19 @@ func (g *Gen) LineProgram() *Chunk {
 	b := &Block{}
 	b.Stmts = append(b.Stmts, &SLocalFunc{Name: "thrower", F: &Func{Params: []string{"k", "lvl"}, Body: Blk(
 		CallSN("error", Bin("..", Str("E"), N("k")), N("lvl")))}})
+	// an object whose handlers ask for the locals of the frame that is stopped
+	// at the very instruction that invoked them
+	h := func(tag string, params []string, ret Expr) TItem {
+		body := Blk(CallSN("probe2", Str("mm-"+tag)))
+		if ret != nil {
+			body.Stmts = append(body.Stmts, Return(ret))
+		}
+		return TItem{Kind: TName, Name: "__" + tag, Val: Fn(params, false, body)}
+	}
+	b.Stmts = append(b.Stmts, Local1("mtp", CallN("setmetatable", &ETable{}, &ETable{Items: []TItem{
+		h("add", []string{"a", "b"}, Num(0)), h("index", []string{"t", "k"}, Num(0)), h("concat", []string{"a", "b"}, Str("")),
+		h("unm", []string{"a"}, Num(0)), h("lt", []string{"a", "b"}, &ETrue{}), h("call", []string{"self"}, Num(0)),
+		h("newindex", []string{"t", "k", "v"}, nil)}})))
 	g.lineBlock(b, 0, 8+g.R.Intn(14))
 	return &Chunk{Body: b}
 }
@@ -46,9 +59,48 @@ func (g *Gen) failingExpr() Expr {
 func (g *Gen) lineBlock(b *Block, depth int, n int) {
 	var locals []string
 	for i := 0; i < n; i++ {
-		k := g.R.Intn(16)
+		k := g.R.Intn(19)
 		g.cover("linestmt:%d", k)
 		switch k {
+		case 16, 17, 18:
+			// a metamethod handler enumerates this function's locals while it is
+			// stopped at the first instruction of this statement
+			var operand Expr = Num(float64(g.R.Intn(9)))
+			if len(locals) > 0 && g.R.Intn(2) == 0 {
+				operand = N(locals[g.R.Intn(len(locals))])
+			}
+			var e Expr
+			switch g.R.Intn(6) {
+			case 0:
+				e = Bin("+", N("mtp"), operand)
+			case 1:
+				e = Dot(N("mtp"), "k")
+			case 2:
+				e = Bin("..", N("mtp"), Str("s"))
+			case 3:
+				e = Un("-", N("mtp"))
+			case 4:
+				e = Bin("<", N("mtp"), N("mtp"))
+			default:
+				e = Call(N("mtp"))
+			}
+			switch g.R.Intn(4) {
+			case 0:
+				b.Stmts = append(b.Stmts, Assign1(Dot(N("mtp"), "k"), operand))
+			case 1:
+				if tv := locals[len(locals)*0:]; len(tv) > 0 {
+					t := tv[g.R.Intn(len(tv))]
+					if t[0] == 'v' {
+						b.Stmts = append(b.Stmts, Assign1(N(t), e))
+						break
+					}
+				}
+				fallthrough
+			default:
+				v := g.fresh("v")
+				locals = append(locals, v)
+				b.Stmts = append(b.Stmts, Local1(v, e))
+			}
 		case 0, 1:
 			v := g.fresh("v")
 			locals = append(locals, v)
@@ -58,10 +110,49 @@ func (g *Gen) lineBlock(b *Block, depth int, n int) {
 		case 3, 4:
 			// caught run-time error inside an anonymous function
 			body := Blk(Local1(g.fresh("pad"), Num(1)))
-			if g.R.Intn(2) == 0 {
+			switch g.R.Intn(4) {
+			case 0:
 				body.Stmts = append(body.Stmts, Local1(g.fresh("z"), g.failingExpr()))
-			} else {
+			case 1:
 				body.Stmts = append(body.Stmts, CallSN("emit", g.failingExpr()))
+			default:
+				// the failing instruction is the first one of its statement (operands
+				// are locals), directly after a statement of another shape
+				p, q := g.fresh("p"), g.fresh("q")
+				body.Stmts = append(body.Stmts, Local([]string{p, q}, &ENil{}, Num(1)))
+				switch g.R.Intn(5) {
+				case 0:
+					body.Stmts = append(body.Stmts, Local1(g.fresh("o"), Bin("or", N(q), &ETable{})))
+				case 1:
+					body.Stmts = append(body.Stmts, Local1(g.fresh("o"), Bin("and", N(p), N(q))))
+				case 2:
+					body.Stmts = append(body.Stmts, Assign1(N(q), Bin("or", N(p), Num(2))))
+				case 3:
+					body.Stmts = append(body.Stmts, Local1(g.fresh("o"), Bin("and", N(q), Bin("or", N(p), Num(3)))))
+				}
+				var fe Expr
+				switch g.R.Intn(7) {
+				case 0:
+					fe = Bin("+", N(p), N(q))
+				case 1:
+					fe = Dot(N(p), "f")
+				case 2:
+					fe = Call(N(p))
+				case 3:
+					fe = Un("-", N(p))
+				case 4:
+					fe = Un("#", N(p))
+				case 5:
+					fe = Bin("..", N(p), N(q))
+				default:
+					fe = Bin("<", N(p), N(q))
+				}
+				if g.R.Intn(3) == 0 {
+					body.Stmts = append(body.Stmts, Assign1(N(q), fe))
+				} else {
+					body.Stmts = append(body.Stmts, Local1(g.fresh("z"), fe))
+				}
+				g.cover("fail:first-instruction")
 			}
 			b.Stmts = append(b.Stmts, CallSN("emit", Str("rt"), CallN("pcall", Fn(nil, false, body))))
 		case 5:
@@ -83,14 +174,28 @@ func (g *Gen) lineBlock(b *Block, depth int, n int) {
 				g.lineBlock(fb, depth+1, 1+g.R.Intn(4))
 			}
 			fb.Stmts = append(fb.Stmts, CallSN("emitline", Str("in:"+f), CallN("curline")))
+			vararg := g.R.Intn(3) == 0
+			if len(params) > 0 {
+				// the parameters are locals too: set one, enumerate, read it back
+				pn := params[g.R.Intn(len(params))]
+				fb.Stmts = append(fb.Stmts, CallSN("setl", Str(pn), Num(float64(800+g.R.Intn(90)))), CallSN("probe", Str(g.fresh("pl-param"))), CallSN("emit", Str("read"), N(pn)))
+			}
+			if vararg {
+				fb.Stmts = append(fb.Stmts, CallSN("emit", Str("va"), CallN("select", Str("#"), &EVararg{}), &EVararg{}))
+				g.cover("fn:vararg-%d-params", len(params))
+			}
 			var decl Stmt
 			if g.R.Intn(2) == 0 {
-				decl = &SLocalFunc{Name: f, F: &Func{Params: params, Body: fb}}
+				decl = &SLocalFunc{Name: f, F: &Func{Params: params, Vararg: vararg, UsesVararg: vararg, Body: fb}}
 			} else {
-				decl = Local1(f, &EFunc{F: &Func{Params: params, Body: fb}})
+				decl = Local1(f, &EFunc{F: &Func{Params: params, Vararg: vararg, UsesVararg: vararg, Body: fb}})
 			}
 			locals = append(locals, f)
-			b.Stmts = append(b.Stmts, decl, CallSN("emitfn", Str("def:"+f), N(f)), &SCall{Call: Call(N(f), Num(1), Num(2))})
+			args := []Expr{Num(1), Num(2)}
+			for j, m := 0, g.R.Intn(3); vararg && j < m; j++ {
+				args = append(args, Num(float64(3+j)))
+			}
+			b.Stmts = append(b.Stmts, decl, CallSN("emitfn", Str("def:"+f), N(f)), &SCall{Call: Call(N(f), args...)})
 		case 8, 9:
 			// enumerate locals here
 			b.Stmts = append(b.Stmts, CallSN("probe", Str(g.fresh("pl"))))
@@ -115,7 +220,14 @@ func (g *Gen) lineBlock(b *Block, depth int, n int) {
 				inner := &Block{}
 				g.lineBlock(inner, depth+1, 1+g.R.Intn(3))
 				iv := g.fresh("i")
-				if g.R.Intn(2) == 0 {
+				if g.R.Intn(3) == 0 {
+					// the iterator asks for the locals of the looping function at every call
+					b.Stmts = append(b.Stmts, &SGenFor{Names: []string{iv}, Exprs: []Expr{
+						Fn([]string{"s", "c"}, false, Blk(CallSN("probe2", Str(g.fresh("iter"))),
+							&SIf{Sites: make([]Site, 1), Conds: []Expr{Bin("<", N("c"), Num(float64(1+g.R.Intn(2))))}, Blocks: []*Block{Blk(Return(Bin("+", N("c"), Num(1))))}})),
+						&ENil{}, Num(0)}, Body: inner})
+					g.cover("loop:probing-iterator")
+				} else if g.R.Intn(2) == 0 {
 					b.Stmts = append(b.Stmts, &SNumFor{Var: iv, Start: Num(1), Limit: Num(float64(1 + g.R.Intn(2))), Body: inner})
 				} else {
 					kv := g.fresh("k")
